@@ -12,7 +12,7 @@ def histories(rng, tier, n=None):
         r = rng.fork("ndev%d" % i)
         region = r.choice([5, 8, 0, 4, 6, 7, 1])
         start = r.choice([0, 0, 3, 0xFFFE, 0xFFFF, 0xFFFFFFFD, 0xFFFFFFFE, 0xFFFFFFFF])
-        fault = r.choice(["-", "-"] + [str(x) for x in range(0, 16)])
+        fault = r.choice(["-", "-"] + [str(x) for x in range(0, 16)] + ["%dx%d" % (k, n) for k in (0, 2, 5, 9) for n in (2, 3, 30)])
         bias = r.choice(["-", "-", "2:3"]) if region in (4, 8) else "-"
         head = "ndev r=%d fault=%s bias=%s" % (region, fault, bias)
         ops, st = [], {"down": 0}
